@@ -1078,6 +1078,7 @@ func ruleFramesFinished(c *Check, p *Program, h *ssa.Function) {
 	nCopy, nClose := 0, 0
 	seenEv := map[ssa.Instruction]bool{}
 	deferredClose := false
+	outState := map[*ssa.BasicBlock]int{}
 	var run func(h *ssa.Function, entry int, top bool, depth int) int
 	run = func(h *ssa.Function, entry int, top bool, depth int) int {
 		exit := 0
@@ -1130,6 +1131,33 @@ func ruleFramesFinished(c *Check, p *Program, h *ssa.Function) {
 							}
 						}
 						if call, isCall := e.(*ssa.Call); isCall && isLz4(staticCallee(call), "Writer.Close") {
+							continue
+						}
+						if ph, isPhi := e.(*ssa.Phi); isPhi && ph.Block() == b {
+							// one verdict per incoming edge: the state that arrives on it, and the value it carries
+							anyBad := false
+							for pi, pb := range b.Preds {
+								ev := ph.Edges[pi]
+								if !mayBeNilErr(ev, pb) {
+									continue
+								}
+								nonNil := false
+								ats := append([]Atom{}, atomsOfBlock(pb)...)
+								if ifi, isIf := pb.Instrs[len(pb.Instrs)-1].(*ssa.If); isIf && len(pb.Succs) == 2 && pb.Succs[0] != pb.Succs[1] {
+									ats = append(ats, atomOf(ifi.Cond, pb.Succs[0] == b))
+								}
+								for _, a := range ats {
+									if a.Kind == "errnil" && !a.Val && a.V == ev {
+										nonNil = true
+									}
+								}
+								if !nonNil && outState[pb]&sOpen != 0 {
+									anyBad = true
+								}
+							}
+							if anyBad {
+								bad[i] = "the handler can return without an error while the frame written by io.Copy has not been closed: no end mark and no content checksum reach the output"
+							}
 							continue
 						}
 						if isErrorType(e.Type()) && mayBeNilErr(e, b) {
@@ -1210,6 +1238,7 @@ func ruleFramesFinished(c *Check, p *Program, h *ssa.Function) {
 					}
 				}
 			}
+			outState[b] |= cur
 			for _, s := range b.Succs {
 				if in[s]|cur != in[s] {
 					in[s] |= cur
@@ -1218,6 +1247,11 @@ func ruleFramesFinished(c *Check, p *Program, h *ssa.Function) {
 			}
 		}
 		return exit
+	}
+	run(h, sIdle, true, 2)
+	// returns judged per incoming edge need the final out-states: a second pass with them in place
+	for k := range bad {
+		delete(bad, k)
 	}
 	run(h, sIdle, true, 2)
 	if nCopy == 0 {
@@ -1327,9 +1361,18 @@ func ruleNamesUnchanged(c *Check, p *Program, h *ssa.Function, cmd string) {
 		inFam[g] = true
 	}
 	var okName func(v ssa.Value, depth int) (bool, string)
+	onStack := map[ssa.Value]bool{}
 	okName = func(v ssa.Value, depth int) (bool, string) {
-		if depth > 14 {
+		if depth > 30 {
 			return false, "derivation too deep"
+		}
+		if _, isPhi := v.(*ssa.Phi); isPhi {
+			// a loop-carried variable (rest = rest[1:]): the value coming round the loop adds nothing new
+			if onStack[v] {
+				return true, ""
+			}
+			onStack[v] = true
+			defer delete(onStack, v)
 		}
 		switch x := v.(type) {
 		case *ssa.Const:
